@@ -103,17 +103,18 @@ CLAIMED = {
     ),
     "C03": dict(
         category="proof",
-        text=("Theorems (Props/C03.v, closed under the global context): for every corpus within the limits, every batch "
-              "size and every phrase of >= 2 terms without an immediately repeated term, the line-level model of the bigram "
-              "chain (fused intersect/adjacent kernel, inner and cross-word adjacency, adjacency-bit merge, middle-out "
-              "strategy) returns for every document the number of offsets at which the phrase occurs contiguously, hence is "
-              "positive exactly for the documents containing it; the bigram step and the chain are also stated on arbitrary "
-              "well-formed posting lists. NOT proved: the clause for phrases WITH immediate repetitions (positive iff "
-              "contained, between non-overlapping and overlapping counts): decided by the three-way check with the bounds "
-              "oracle. Check = real phrase search vs model vs spec."),
+        text=("Theorems (Props/C03.v, closed under the global context) about the line-level model of the bigram chain (fused "
+              "intersect/adjacent kernel, inner and cross-word adjacency, same-term path, adjacency-bit merge, middle-out "
+              "strategy), for every corpus within the limits and every batch size: (1) for every phrase of >= 2 terms "
+              "without an immediately repeated term the result is, for every document, the number of offsets at which "
+              "the phrase occurs contiguously; (2) for EVERY phrase of >= 2 terms, immediate repetitions included, the "
+              "frequency is positive exactly for the documents containing the phrase and lies between the non-overlapping "
+              "and the overlapping occurrence counts (C03_every_phrase_bounds; the same-term step is characterised on all "
+              "2^18 payloads by a computed check). Both sentences of the property are theorems. Check = real phrase "
+              "search vs model vs spec / bounds oracle."),
         design_ref="DESIGN.md 7 (C03)",
         note=COMMON_NOTE + "No axioms.",
-        technique="Coq proof (bigram-step refinement + chain induction on encoded postings) + three-way correspondence",
+        technique="Coq proof (bigram-step refinement incl. the same-term case + chain induction) + three-way correspondence",
     ),
     "C05": dict(
         category="proof",
@@ -130,9 +131,10 @@ CLAIMED = {
         category="proof",
         text=("Theorems (Props/C04.v) about the bit-exact Flocq binary32 model of the kernel: tf = 0 scores exactly 0 for ALL "
               "parameters; avg = 0 gives zeros; every score is finite for integer tf/len up to 2^18, avg >= 2^-10, "
-              "0 <= k1 <= 128, 0 <= b <= 1; relative error <= 2^-17 w.r.t. the real formula on an explicit box (partial: "
-              "the property's all-k1/b claim cannot hold at a fixed tolerance); over R: legacy = (k1+1) * modern, positive "
-              "denominator, idf > 0. The check compares real score() bit patterns with the model, and with a float64 "
+              "0 <= k1 <= 128, 0 <= b <= 1; relative error <= 2^-17 (proved: 2^-20) w.r.t. the real formula for tf and "
+              "len up to 2^18, avg in [2^-32, 2^18], idf in [2^-64, 2^64], EVERY k1 in [2^-32, 2^10] and EVERY 0 <= b < 1 "
+              "(C04_accuracy), and for the default similarity (1.2f, 0.75f) against the formula at 6/5, 3/4 "
+              "(C04_default_accuracy); over R: legacy = (k1+1) * modern, positive denominator, idf > 0. The check compares real score() bit patterns with the model, and with a float64 "
               "evaluation on the spec's statistics; a recording similarity checks the statistics handed over."),
         design_ref="DESIGN.md 7 (C04)",
         note=COMMON_NOTE + "Axioms (via Flocq/Reals): ClassicalDedekindReals.sig_forall_dec, sig_not_dec, "
@@ -144,14 +146,20 @@ CLAIMED = {
         category="proof",
         text=("Theorem C08_batch_size_irrelevant (Props/C08.v, closed): any two batch sizes give the same per-term postings, "
               "document lengths and dictionary, and indexing succeeds for every batch size within the limits; so every "
-              "answer is batch-independent (C01/C02/C05 are stated for all batch sizes). PARTIAL for schedules: thread "
-              "interleavings, completion orders, caches, memory-mapping are not in the theorem; the check builds the real "
+              "answer is batch-independent (C01/C02/C05 are stated for all batch sizes). Worker threads (Index/Sched.v): "
+              "slotting returns the batches in document order for ANY completion order; ANY interleaving of the threads' "
+              "tokenisations gives an arrival-order dictionary that is total and injective on the vocabulary; two builds "
+              "with different batch sizes, worker counts, completion orders and interleavings answer every query alike "
+              "(C08_threaded_builds_agree). PARTIAL: atomicity of TermDict.add_term is the model's assumption (the check "
+              "forces a preemption inside it: that is how the unlocked check/len/store race, now repaired, was found), "
+              "caches and memory-mapping are not in the theorem; the check builds the real "
               "index under batch sizes 1..n+1, 1..8 workers, FORCED completion orders, tiny switch intervals, GIL-yielding "
               "tokenizers, cache/autowarm/avoid_copies/data_dir settings and compares every answer with the single-batch "
               "index, the model and the spec."),
         design_ref="DESIGN.md 7 (C08)",
-        note=COMMON_NOTE + "TermDict.add_term assumed atomic under the GIL; ThreadPoolExecutor not modelled. No axioms.",
-        technique="Coq proof (encode_spec append lemma, sorted concat) + forced-schedule differential check",
+        note=COMMON_NOTE + "The model assumes TermDict.add_term is atomic (now guaranteed by a lock in the repaired code); "
+             "ThreadPoolExecutor not modelled. No axioms.",
+        technique="Coq proof (encode_spec append lemma, slotting under permutations, arrival-order dictionary injectivity) + forced-schedule differential check",
     ),
     "C16": dict(
         category="proof",
